@@ -77,7 +77,7 @@ PROPS = {
                        required=["issue_ok", "edit_max_ok", "edit_max_rej", "mint_ok", "mint_to_cap",
                                  "mint_over_cap_rej", "mint_not_mintable_rej", "burn_frac", "transfer_ok",
                                  "old_owner_rej", "new_owner_ok", "not_owner_rej", "dup_symbol_rej",
-                                 "dup_minunit_rej", "fee_tax_pos"],
+                                 "dup_minunit_rej", "fee_tax_pos", "issue_at_cap", "mint_room0_rej"],
                        gen_cfg=C09_MC_CFG, assumptions=ASSUME),
     "C10": ModuleCheck("token", "Token.tla", "TokenTrace.tla", "TokenTrace.cfg", TOKEN_CLAUSES_C10,
                        C10_MC, C10_GEN, TOKEN_RND, scenarios=C10_SCN,
